@@ -335,7 +335,12 @@ class ElementList(MutableSequence):
                 child = value
         elif isinstance(value, BaseDataType):
             child = self.create_element(name, False, reference)
-            child.value = value
+            try:
+                child.value = value
+            except Exception:
+                # the value has been refused: the child just created must not be left behind
+                self.remove(child)
+                raise
         else:
             raise ChildNotValid(value, child_name)
 
